@@ -9,7 +9,8 @@ use serde_json::json;
 use std::collections::HashMap;
 use std::sync::Mutex;
 
-const TOKENS: [&str; 12] = ["word", "\n", "*/", "/*", "//", "\"\"\"", "'''", "\\", "#", "`", "\"", "'"];
+// the plain-text token is spelled so that, right after the backslash token, it reads as a unicode escape of a line break
+const TOKENS: [&str; 12] = ["u000a", "\n", "*/", "/*", "//", "\"\"\"", "'''", "\\", "#", "`", "\"", "'"];
 const TOKEN_NAMES: [&str; 12] = ["word", "NL", "*/", "/*", "//", "\"\"\"", "'''", "backslash", "#", "backtick", "\"", "'"];
 const SYNTAXES: [&str; 4] = ["line", "block", "attr", "raw-attr"];
 const POSITIONS: [&str; 12] = ["type", "field", "unit-variant", "variant", "variant-field", "alias", "unit-enum-type", "algebraic-enum-type", "algebraic-unit-variant", "algebraic-struct-variant", "newtype-struct", "unit-struct"];
